@@ -104,7 +104,7 @@ def scn(params):
                 qid = rng.choice(ids)
                 name = rng.choice(NAMES) if rng.random() < 0.6 else rand_name(rng)
                 qt = rng.choice(TYPES)
-                sport = rng.choice([53, 1024, 33333, 40000 + rng.randrange(50)])
+                sport = rng.choice([53, 1024, 33333, 40000 + rng.randrange(50), BIND_PORT])        # (a requester may use any source port, also the -b one)
                 q = proto.build_query(qid, name, qt, edns0=rng.random() < 0.3)
                 if params.get("flagbits") and rng.random() < 0.5:
                     # what other askers set in their queries: AD (dig), CD (validating resolvers), RD clear, both
@@ -162,7 +162,7 @@ def scn(params):
                     try:
                         m = proto.parse_msg(fdata)
                         body = proto.build_answer_raw(qid, m.qd[0][0], m.qd[0][1], [(1, bytes(rng.getrandbits(8) for _ in range(4)))],
-                                                      extra=bytes(rng.getrandbits(8) for _ in range(rng.choice([0, 0, 7]))))
+                                                      extra=bytes(rng.getrandbits(8) for _ in range(rng.choice([0, 0, 7, 480, 500, 1200, 4000]))))     # (forwarded queries advertise 4096 bytes by EDNS0)
                     except (proto.ParseError, ValueError, IndexError):
                         body = struct.pack(">H", qid) + b"\x81\x80" + bytes(8)
                 if rng.random() < 0.05:
